@@ -367,6 +367,8 @@ class DataFile:
     elif isinstance(max_row_count, str) and max_row_count == "MNR":
       try:
         self.max_row_count = int(self.gsi.MNR)
+        if self.max_row_count < 1:
+          raise ValueError("MNR must be a positive number of rows")
         LOGGER.debug("GSI MNR: %s", self.gsi.MNR)
       except ValueError:
         LOGGER.error("Invalid MNR value: %s", self.gsi.MNR)
